@@ -72,6 +72,8 @@ def _settle(obj):
     if ALT[0]:
         for s_, buf in ALT_BUFFERS.items():
             if s_ not in ALT_WIPED and len(buf):
+                if bytes(buf) != (b"" if s_ == "-" else bytes.fromhex(s_)):
+                    continue        # the LIBRARY has changed the caller's buffer: left as it is (the second run shows it)
                 buf[:] = b"\x5a" * len(buf)
                 ALT_WIPED.add(s_)
     return obj
@@ -1085,6 +1087,10 @@ class HistCtx:
         if k == "was":
             import json
             return jsonS(json.loads(w.wasabi_json()))
+        if k == "cl":
+            # the client is done with an address generator and closes it; then asks for the root key
+            self.gens[int(t[1])].close()
+            k = "root"
         if k == "nw":
             # another wallet object over the SAME root node, then the first wallet's root key
             self.others = getattr(self, "others", []) + [type(w)(master=w.master, testnet=unbool(t[1]))]
